@@ -68,7 +68,8 @@ class Oracle:
                 exc = proc.exception()
                 import asyncio
                 import concurrent.futures
-                ok = any(exc is e for e in w.item_errors.values()) or (
+                # ("with that error": the item's exception, or an equal copy of it)
+                ok = any(exc is e or (type(exc) is type(e) and exc.args == e.args) for e in w.item_errors.values()) or (
                     isinstance(exc, plumpy.KilledError) and any(items[i][1] in ('kill', 'cancel') for i in failing)) or (
                     isinstance(exc, (asyncio.CancelledError, concurrent.futures.CancelledError))
                     and any(items[i][1] == 'cancel' for i in failing))
